@@ -1,6 +1,7 @@
 (* C15 — exported polygons and lines correspond to faces.
    Statements only (about Model/C15.v, which follows the code after the fix commits e27ba52e 9933f425
    78ab318c 1fc12f82 fef78d05, and the key lists regenerated from the source in Gen/C15_keys.v); each closed by `exact` of a lemma from Proofs/C15_proofs.v. *)
+From Coq Require Import Sorting.Sorted.
 From Verif Require Import Base C15 C15_keys C15_proofs.
 
 (* antimeridian faces: the test on the closed, padded float shell row = "some edge of the face
@@ -71,6 +72,69 @@ Theorem C15_gdf_once : forall per n am nan values,
   NoDup (o_faces (c15_gdf per n am nan values)).
 Proof. exact c15_gdf_NoDup. Qed.
 Print Assumptions C15_gdf_once.
+
+(* ---- from the corner longitudes; face by face; the tables in detail ---- *)
+
+(* a face is in the antimeridian table iff one of its edges (closing edge included) spans >= 180 *)
+Theorem C15_am_table : forall m faces i, c15_faces_wf m faces ->
+  (In i (c15_am_faces m faces) <-> (i < length faces)%nat /\ c15_spans (nth i faces []) = true).
+Proof. exact c15_am_faces_spec. Qed.
+Print Assumptions C15_am_table.
+
+(* exclude, whole conversion: the kept rows are exactly the non-crossing faces, in face order *)
+Theorem C15_exclude_full : forall m faces pieces values, c15_faces_wf m faces ->
+  o_faces (c15_poly_full C15Exclude m faces None pieces values) =
+  filter (fun i => negb (c15_spans (nth i faces []))) (seq 0 (length faces)).
+Proof. exact c15_exclude_full. Qed.
+Print Assumptions C15_exclude_full.
+
+(* the face-by-face account (dropped / one polygon / its pieces) and the array pipeline agree *)
+Theorem C15_rows : forall per m faces pieces values, length faces = length pieces ->
+  c15_rows per m faces pieces = o_faces (c15_poly_full per m faces None pieces values).
+Proof. exact c15_rows_pipeline. Qed.
+Print Assumptions C15_rows.
+
+(* the corrected -> original table is monotone, *)
+Theorem C15_split_monotone : forall pieces, StronglySorted le (c15_split_map pieces).
+Proof. exact c15_split_map_sorted. Qed.
+Print Assumptions C15_split_monotone.
+
+(* onto the faces that have a piece and nothing else, *)
+Theorem C15_split_onto : forall pieces i,
+  In i (c15_split_map pieces) <-> (i < length pieces)%nat /\ (1 <= nth i pieces 0)%nat.
+Proof. exact c15_split_map_onto. Qed.
+Print Assumptions C15_split_onto.
+
+(* and face i owns the consecutive rows offset(i) .. offset(i) + pieces(i) - 1 *)
+Theorem C15_split_rows : forall pieces i j,
+  (i < length pieces)%nat -> (j < nth i pieces 0)%nat ->
+  nth (c15_offset pieces i + j) (c15_split_map pieces) 0%nat = i.
+Proof. exact c15_split_rows. Qed.
+Print Assumptions C15_split_rows.
+
+(* data through the table: every polygon of every face carries that face's value *)
+Theorem C15_data_split_every_face : forall n am nan pieces values i j,
+  (i < length pieces)%nat -> (j < nth i pieces 0)%nat ->
+  nth (c15_offset pieces i + j) (o_data (c15_poly C15Split n am nan pieces values)) 0 = nth i values 0.
+Proof. exact c15_split_data_every_face. Qed.
+Print Assumptions C15_data_split_every_face.
+
+(* bookkeeping: re-indexing the data with the side tables of the same build is the pipeline and is aligned *)
+Theorem C15_tables_same_build : forall per m faces nan pieces values,
+  length values = length faces ->
+  (match nan with Some fl => length fl = length values | None => True end) ->
+  c15_da_from_tables per (c15_poly_tables per m faces nan pieces) values =
+  map (fun f => nth f values 0) (o_faces (c15_poly_full per m faces nan pieces values)).
+Proof. exact c15_tables_same_build_aligned. Qed.
+Print Assumptions C15_tables_same_build.
+
+(* ... with the tables another build left behind it is not (value level of the stale-table finding) *)
+Theorem C15_tables_foreign_refuted : exists per m faces faces' pieces values,
+  length values = length faces /\ length faces' = length faces /\
+  c15_da_from_tables per (c15_poly_tables per m faces' None pieces) values <>
+  map (fun f => nth f values 0) (o_faces (c15_poly_full per m faces None pieces values)).
+Proof. exact c15_tables_foreign_refuted. Qed.
+Print Assumptions C15_tables_foreign_refuted.
 
 (* cache transparency of any machine whose compared keys cover the relevant arguments and are
    all stored: for every history of earlier conversions and every call *)
